@@ -105,6 +105,20 @@ CHECKS = {
         design_ref="DESIGN.md §4 C20",
         note="Canonical comment spellings; the line, not the statement, has to survive.",
     ),
+    "C01": dict(
+        technique="runtime differential execution oracle: original and formatted program are both executed (stdout + termination compared) with attribution of a divergence to the first pipeline step (H-rule step trace) whose output behaves differently from its own input",
+        category="exploration",
+        text="Closed, deterministic, terminating programs composed of 2-6 rule-triggering idioms (37 parametric families: accumulation loops, dict loops, literal merges, if/else orientation, early return/continue, lambda/map/filter, comprehension forms, dead code, singleton comparisons, boolean logic, static methods, class attribute assignment, duplicate functions, imports, constants, context managers, zip/enumerate, defaultdict, loop hoisting, logging, numpy, ...) at module level, in functions, in methods and under `if __name__`, with tidy and untidy identifier styles, go through format_code under 8 option vectors (safe, keep_imports, line lengths, preserve half/all bound names); 630 programs per quick run (6000 + 2200 thorough), each executed before and after.",
+        design_ref="DESIGN.md §4 C01",
+        note="Programs of the generator only; stdout and normal termination only; attribution executes every text-changing step's input and output.",
+    ),
+    "C02": dict(
+        technique="runtime differential execution oracle per rule: every pipeline rule is applied alone to every in-class program (and every text-changing step of format_code traces is judged against its own predecessor); both versions executed",
+        category="exploration",
+        text="Each of the 85 pipeline rules is called alone on ~620 in-class programs per quick run (14 draws of each of the 37 idiom families written from the rules' own patterns with parameters on and around their side conditions, plus 110 compositions; 140 draws and 1500 compositions in thorough): ~53k rule calls, ~6k of which change the text and are executed before/after; numpy rules run against the real numpy. The evidence names the rules that fired and the pipeline rules that never fired.",
+        design_ref="DESIGN.md §4 C02",
+        note="A rule's behaviour on shapes the generator does not produce is unobserved; 17 of 85 pipeline rules do not fire on the quick workload (listed in the evidence).",
+    ),
 }
 
 NOT_YET = {}
